@@ -114,7 +114,7 @@ def block_ids(H, W, rows, cols):
 def gen_jobs(ctx, rng):
     quick = ctx.tier == "quick"
     jobs = []
-    nras = 14 if quick else 70
+    nras = 14 if quick else 35   # thorough: measured 5.5 CPU-h with 70 rasters (every chunking of each)
     for ri in range(nras):
         H, W = rng.choice([(2, 3), (3, 3), (3, 4), (4, 4), (4, 5), (2, 6)])
         # zone alphabets are cycled too; the last one holds -inf / +inf zone cells (never a zone: a block task that
